@@ -143,7 +143,7 @@ func glob2(c *Ctx) {
 			continue
 		}
 		c.Mark(fn)
-		for _, r := range ir.Returns(fn) {
+		for _, r := range ir.ReturnPoints(fn) {
 			v := ir.Unwrap(r.Results[0])
 			if _, isConst := v.(*ssa.Const); isConst {
 				c.OK("singleton "+Q(fn), fn.Pos(), "returns a constant of basic kind: no shared mutable instance")
@@ -483,7 +483,7 @@ func glob5(c *Ctx) {
 			less := c.P.SSA.MethodValue(sel)
 			c.Mark(less)
 			ok := false
-			for _, r := range ir.Returns(less) {
+			for _, r := range ir.ReturnPoints(less) {
 				if b, isBin := r.Results[0].(*ssa.BinOp); isBin && b.Op == token.LSS {
 					cx, okx := b.X.(*ssa.Call)
 					cy, oky := b.Y.(*ssa.Call)
@@ -507,7 +507,7 @@ func glob5(c *Ctx) {
 		}
 		c.Mark(fn)
 		ok := true
-		for _, r := range ir.Returns(fn) {
+		for _, r := range ir.ReturnPoints(fn) {
 			if _, isC := ir.ConstInt(r.Results[0]); !isC {
 				ok = false
 			}
